@@ -97,11 +97,11 @@ Definition filtered_msg (c : compiled) (m : msg) : msg :=
 Definition filtered_same (c : compiled) (m : msg) : bool :=
   if m_rcode m =? 0 then (length (filter (aaaa_excluded c) (m_answer m)) =? 0)%nat else true.
 
-Lemma write_msg_reaches_synthesise v c m mark work al :
-  x_aq (write_msg v c m mark work al) = true \/ x_path (write_msg v c m mark work al) = PSynth
-  \/ x_path (write_msg v c m mark work al) = PFallback \/ x_path (write_msg v c m mark work al) = PABasis ->
+Lemma write_msg_reaches_synthesise v c m mark work al cut :
+  x_aq (write_msg v c m mark work al cut) = true \/ x_path (write_msg v c m mark work al cut) = PSynth
+  \/ x_path (write_msg v c m mark work al cut) = PFallback \/ x_path (write_msg v c m mark work al cut) = PABasis ->
   down_allows c m mark work = true
-  /\ write_msg v c m mark work al = synthesise v c (filtered_msg c m) (filtered_same c m) al.
+  /\ write_msg v c m mark work al cut = synthesise v c (filtered_msg c m) (filtered_same c m) al cut.
 Proof.
   unfold write_msg, down_allows, filtered_msg, filtered_same.
   destruct (m_trunc m); cbn [orb negb andb x_aq x_path]; [intros [H|[H|[H|H]]]; discriminate|].
@@ -122,16 +122,16 @@ Proof.
 Qed.
 
 (* what synthesise can return *)
-Lemma synthesise_synth v c m same al :
-  x_path (synthesise v c m same al) = PSynth ->
+Lemma synthesise_synth v c m same al cut :
+  x_path (synthesise v c m same al cut) = PSynth ->
   exists ar, al = QResp ar /\ m_rcode ar = 0
     /\ filter is_a (m_answer ar) <> []
-    /\ synth_rrs c (synth_ttl v (m_ns m) (filter is_a (m_answer ar))) (filter is_a (m_answer ar)) <> []
-    /\ synthesise v c m same al =
+    /\ synth_rrs c (synth_ttl v (m_ns m) (filter is_a (m_answer ar)) cut) (filter is_a (m_answer ar)) <> []
+    /\ synthesise v c m same al cut =
        mk_result PSynth
          (Some (mk_reply false 0 false (basis_edes m)
-                  (map (cap_ttl (synth_ttl v (m_ns m) (filter is_a (m_answer ar)))) (filter is_chain (m_answer ar))
-                   ++ synth_rrs c (synth_ttl v (m_ns m) (filter is_a (m_answer ar))) (filter is_a (m_answer ar)))))
+                  (map (cap_ttl (synth_ttl v (m_ns m) (filter is_a (m_answer ar)) cut)) (filter is_chain (m_answer ar))
+                   ++ synth_rrs c (synth_ttl v (m_ns m) (filter is_a (m_answer ar)) cut) (filter is_a (m_answer ar)))))
          true true.
 Proof.
   unfold synthesise, fallback. destruct al as [|k| |ar]; cbn [x_path]; try discriminate.
@@ -145,12 +145,12 @@ Proof.
 Qed.
 
 (* ---------------- the whole handler ---------------- *)
-Lemma serve_wrapped v cf q down work al :
-  x_aq (serve v cf q down work al) = true /\ q_type q = type_aaaa
-  \/ x_path (serve v cf q down work al) = PSynth
-  \/ x_path (serve v cf q down work al) = PFallback \/ x_path (serve v cf q down work al) = PABasis ->
+Lemma serve_wrapped v cf q down work al cut :
+  x_aq (serve v cf q down work al cut) = true /\ q_type q = type_aaaa
+  \/ x_path (serve v cf q down work al cut) = PSynth
+  \/ x_path (serve v cf q down work al cut) = PFallback \/ x_path (serve v cf q down work al cut) = PABasis ->
   gate v (compile cf) q = GWrap /\
-  exists m mark, down = Some (m, mark) /\ serve v cf q down work al = write_msg v (compile cf) m mark work al.
+  exists m mark, down = Some (m, mark) /\ serve v cf q down work al cut = write_msg v (compile cf) m mark work al cut.
 Proof.
   unfold serve. destruct (gate v (compile cf) q) as [| |v4|] eqn:G.
   - destruct down as [[m mk]|]; cbn [x_aq x_path]; intros [[H _]|[H|[H|H]]]; discriminate.
@@ -173,25 +173,25 @@ Qed.
 (* synth_only_when: a synthesised reply — and already the secondary A lookup —
    happens only behind every gate and only when the downstream response
    leaves room for it *)
-Lemma synth_only_when_lem v cf q down work al :
-  x_path (serve v cf q down work al) = PSynth \/ (x_aq (serve v cf q down work al) = true /\ q_type q = type_aaaa) ->
+Lemma synth_only_when_lem v cf q down work al cut :
+  x_path (serve v cf q down work al cut) = PSynth \/ (x_aq (serve v cf q down work al cut) = true /\ q_type q = type_aaaa) ->
   gates_open (compile cf) q = true /\ q_type q = type_aaaa
   /\ zone_excluded (compile cf) (lower (q_name q)) = false
   /\ exists m mark, down = Some (m, mark) /\ down_allows (compile cf) m mark work = true.
 Proof.
   intros H.
-  destruct (serve_wrapped v cf q down work al) as (G & m & mark & -> & E); [tauto|].
+  destruct (serve_wrapped v cf q down work al cut) as (G & m & mark & -> & E); [tauto|].
   apply gate_wrap in G as (A & B & C). split; [exact A|]. split; [exact B|]. split; [exact C|].
   exists m, mark. split; [reflexivity|].
-  rewrite E in H. apply write_msg_reaches_synthesise with (v := v) (al := al). tauto.
+  rewrite E in H. apply write_msg_reaches_synthesise with (v := v) (al := al) (cut := cut). tauto.
 Qed.
 
-Lemma synth_needs_a_answer v cf q down work al :
-  x_path (serve v cf q down work al) = PSynth ->
+Lemma synth_needs_a_answer v cf q down work al cut :
+  x_path (serve v cf q down work al cut) = PSynth ->
   exists ar, al = QResp ar /\ m_rcode ar = 0 /\ exists o t ip, In (RA o t ip) (m_answer ar).
 Proof.
-  intros H. destruct (serve_wrapped v cf q down work al) as (G & m & mark & -> & E); [tauto|].
-  rewrite E in H. destruct (write_msg_reaches_synthesise v (compile cf) m mark work al) as (_ & E2); [tauto|].
+  intros H. destruct (serve_wrapped v cf q down work al cut) as (G & m & mark & -> & E); [tauto|].
+  rewrite E in H. destruct (write_msg_reaches_synthesise v (compile cf) m mark work al cut) as (_ & E2); [tauto|].
   rewrite E2 in H. apply synthesise_synth in H as (ar & -> & R0 & NA & _). exists ar. split; [reflexivity|]. split; [exact R0|].
   destruct (filter is_a (m_answer ar)) as [|r l] eqn:F; [congruence|].
   assert (In r (filter is_a (m_answer ar))) as I by (rewrite F; left; reflexivity).
@@ -245,10 +245,37 @@ Proof.
     destruct (a_ttl a <? init) eqn:E; [lia | apply N.ltb_ge in E; lia].
   - apply IH. exact H.
 Qed.
-Lemma synth_ttl_le_a v ns addrs o t ip : In (RA o t ip) addrs -> synth_ttl v ns addrs <= t.
-Proof. intros H. apply (fold_min_le_each addrs (ttl_ceiling v ns) (RA o t ip) H). Qed.
-Lemma synth_ttl_le_ceiling v ns addrs : synth_ttl v ns addrs <= ttl_ceiling v ns.
-Proof. apply fold_min_le_init. Qed.
+(* the request tree's bound only ever lowers the TTL, to at most itself *)
+Lemma bound_ttl_le cut ttl : bound_ttl cut ttl <= ttl.
+Proof. unfold bound_ttl. destruct cut as [s|]; [|lia]. destruct (s <? ttl) eqn:E; [apply N.ltb_lt in E|]; lia. Qed.
+Lemma bound_ttl_le_cut s ttl : bound_ttl (Some s) ttl <= s.
+Proof. unfold bound_ttl. destruct (s <? ttl) eqn:E; [|apply N.ltb_ge in E]; lia. Qed.
+Lemma bound_ttl_min s ttl : bound_ttl (Some s) ttl = N.min s ttl.
+Proof. unfold bound_ttl. destruct (s <? ttl) eqn:E; [apply N.ltb_lt in E | apply N.ltb_ge in E]; lia. Qed.
+Lemma bound_ttl_none ttl : bound_ttl None ttl = ttl.
+Proof. reflexivity. Qed.
+
+Lemma synth_ttl_le_a v ns addrs cut o t ip : In (RA o t ip) addrs -> synth_ttl v ns addrs cut <= t.
+Proof.
+  intros H. unfold synth_ttl.
+  pose proof (fold_min_le_each addrs (ttl_ceiling v ns) (RA o t ip) H) as L. cbn [a_ttl] in L.
+  pose proof (bound_ttl_le cut (fold_left (fun ttl a => if a_ttl a <? ttl then a_ttl a else ttl) addrs (ttl_ceiling v ns))). lia.
+Qed.
+Lemma synth_ttl_le_ceiling v ns addrs cut : synth_ttl v ns addrs cut <= ttl_ceiling v ns.
+Proof.
+  unfold synth_ttl. pose proof (fold_min_le_init addrs (ttl_ceiling v ns)).
+  pose proof (bound_ttl_le cut (fold_left (fun ttl a => if a_ttl a <? ttl then a_ttl a else ttl) addrs (ttl_ceiling v ns))). lia.
+Qed.
+Lemma synth_ttl_le_cut v ns addrs s : synth_ttl v ns addrs (Some s) <= s.
+Proof. apply bound_ttl_le_cut. Qed.
+(* an unbounded tree: the TTL of the tree before af44539 *)
+Lemma synth_ttl_unbounded v ns addrs :
+  synth_ttl v ns addrs None = fold_left (fun ttl a => if a_ttl a <? ttl then a_ttl a else ttl) addrs (ttl_ceiling v ns).
+Proof. reflexivity. Qed.
+(* exactly the minimum of the three: every A TTL, the ceiling, the bound *)
+Lemma synth_ttl_is_min v ns addrs s :
+  synth_ttl v ns addrs (Some s) = N.min s (synth_ttl v ns addrs None).
+Proof. apply bound_ttl_min. Qed.
 
 (* the bound RFC 6147 5.1.7 asks for *)
 Definition neg_ttl_bound (ns : list (option (N * N))) : N :=
@@ -273,7 +300,7 @@ Qed.
 (* current tree: SOA TTL 3600, MINIMUM 0, one A record with TTL 300 *)
 Lemma ttl_ceiling_old_witness :
   let ns := [Some (3600, 0)] in
-  neg_ttl_bound ns = 0 /\ synth_ttl old ns [RA (bs "h.ex.t.") 300 [192; 0; 9; 1]] = 300.
+  neg_ttl_bound ns = 0 /\ synth_ttl old ns [RA (bs "h.ex.t.") 300 [192; 0; 9; 1]] None = 300.
 Proof. split; reflexivity. Qed.
 
 Lemma filter_all P (l : list rr) : Forall (fun x => P x = true) (filter P l).
@@ -283,64 +310,66 @@ Lemma filtered_msg_ns c m : m_ns (filtered_msg c m) = m_ns m.
 Proof. unfold filtered_msg. destruct (m_rcode m =? 0); reflexivity. Qed.
 
 (* the reply of the synthesis path *)
-Lemma synth_reply_shape v cf q down work al :
-  x_path (serve v cf q down work al) = PSynth ->
+Lemma synth_reply_shape v cf q down work al cut :
+  x_path (serve v cf q down work al cut) = PSynth ->
   exists m mark ar,
     down = Some (m, mark) /\ al = QResp ar /\
     let addrs := filter is_a (m_answer ar) in
-    let ttl := synth_ttl v (m_ns m) addrs in
-    x_reply (serve v cf q down work al) =
+    let ttl := synth_ttl v (m_ns m) addrs cut in
+    x_reply (serve v cf q down work al cut) =
       Some (mk_reply false 0 false (basis_edes (filtered_msg (compile cf) m))
               (map (cap_ttl ttl) (filter is_chain (m_answer ar)) ++ synth_rrs (compile cf) ttl addrs))
     /\ synth_rrs (compile cf) ttl addrs <> [].
 Proof.
-  intros H. destruct (serve_wrapped v cf q down work al) as (G & m & mark & -> & E); [tauto|].
-  rewrite E in *. destruct (write_msg_reaches_synthesise v (compile cf) m mark work al) as (_ & E2); [tauto|].
+  intros H. destruct (serve_wrapped v cf q down work al cut) as (G & m & mark & -> & E); [tauto|].
+  rewrite E in *. destruct (write_msg_reaches_synthesise v (compile cf) m mark work al cut) as (_ & E2); [tauto|].
   rewrite E2 in *. apply synthesise_synth in H as (ar & -> & R0 & NA & NS & ->).
   exists m, mark, ar. rewrite filtered_msg_ns in *. cbn [x_reply]. auto.
 Qed.
 
 (* owner, address, exclusions and TTL of every synthesised AAAA *)
-Lemma synthesised_aaaa_sound v cf q m mark work ar r o t e :
-  x_path (serve v cf q (Some (m, mark)) work (QResp ar)) = PSynth ->
-  x_reply (serve v cf q (Some (m, mark)) work (QResp ar)) = Some r ->
+Lemma synthesised_aaaa_sound v cf q m mark work ar cut r o t e :
+  x_path (serve v cf q (Some (m, mark)) work (QResp ar) cut) = PSynth ->
+  x_reply (serve v cf q (Some (m, mark)) work (QResp ar) cut) = Some r ->
   In (RAAAA o t e) (r_answer r) ->
   (exists p ta ip v4,
       In p (c_prefixes (compile cf)) /\ In (RA o ta ip) (m_answer ar) /\ to4 ip = Some v4
       /\ e = embed (cp_net p) v4
       /\ (is_well_known (cp_net p) = true -> existsb (fun n => net_contains n v4) (c_excl_a (compile cf)) = false))
   /\ (forall o' ta ip, In (RA o' ta ip) (m_answer ar) -> t <= ta)
-  /\ t <= ttl_ceiling v (m_ns m).
+  /\ t <= ttl_ceiling v (m_ns m)
+  /\ (forall s, cut = Some s -> t <= s).
 Proof.
-  intros HP HR HI. destruct (synth_reply_shape _ _ _ _ _ _ HP) as (m' & mark' & ar' & Ed & Ea & R & _).
+  intros HP HR HI. destruct (synth_reply_shape _ _ _ _ _ _ _ HP) as (m' & mark' & ar' & Ed & Ea & R & _).
   injection Ed as <- <-. injection Ea as <-. cbv zeta in R. rewrite R in HR. injection HR as <-. cbn [r_answer] in HI.
   apply synth_answer_aaaa in HI; [| apply filter_all | reflexivity ].
   apply synth_rrs_in in HI as (p & o' & ta & ip & v4 & Hp & Ha & T & X & E). injection E as -> -> ->.
-  apply filter_In in Ha as (Ha & _). split; [|split].
+  apply filter_In in Ha as (Ha & _). split; [|split; [|split]].
   - exists p, ta, ip, v4. repeat split; auto. intros W.
     destruct (compile_prefixes_valid cf p Hp) as (_ & Wk & _). unfold should_exclude_a in X. rewrite Wk, W in X. exact X.
   - intros o2 t2 ip2 H2. apply synth_ttl_le_a with (o := o2) (ip := ip2). apply filter_In. split; [exact H2 | reflexivity].
   - apply synth_ttl_le_ceiling.
+  - intros s ->. apply synth_ttl_le_cut.
 Qed.
 
 (* ... and every allowed (prefix, A) pair is there *)
-Lemma synthesised_aaaa_complete v cf q m mark work ar r p o ta ip v4 :
-  x_path (serve v cf q (Some (m, mark)) work (QResp ar)) = PSynth ->
-  x_reply (serve v cf q (Some (m, mark)) work (QResp ar)) = Some r ->
+Lemma synthesised_aaaa_complete v cf q m mark work ar cut r p o ta ip v4 :
+  x_path (serve v cf q (Some (m, mark)) work (QResp ar) cut) = PSynth ->
+  x_reply (serve v cf q (Some (m, mark)) work (QResp ar) cut) = Some r ->
   In p (c_prefixes (compile cf)) -> In (RA o ta ip) (m_answer ar) -> to4 ip = Some v4 ->
   should_exclude_a (compile cf) v4 p = false ->
   exists t, In (RAAAA o t (embed (cp_net p) v4)) (r_answer r).
 Proof.
-  intros HP HR Hp Ha T X. destruct (synth_reply_shape _ _ _ _ _ _ HP) as (m' & mark' & ar' & Ed & Ea & R & _).
+  intros HP HR Hp Ha T X. destruct (synth_reply_shape _ _ _ _ _ _ _ HP) as (m' & mark' & ar' & Ed & Ea & R & _).
   injection Ed as <- <-. injection Ea as <-. cbv zeta in R. rewrite R in HR. injection HR as <-. cbn [r_answer].
   eexists. apply in_app_iff. right. apply synth_rrs_in.
   exists p, o, ta, ip, v4. repeat split; auto. apply filter_In. split; [exact Ha | reflexivity].
 Qed.
 
 (* ---------------- AD ---------------- *)
-Lemma never_ad_gen v cf q down work al r :
-  x_reply (serve v cf q down work al) = Some r -> r_same r = false ->
-  fx_fallback_ad v = true \/ x_path (serve v cf q down work al) <> PFallback ->
+Lemma never_ad_gen v cf q down work al cut r :
+  x_reply (serve v cf q down work al cut) = Some r -> r_same r = false ->
+  fx_fallback_ad v = true \/ x_path (serve v cf q down work al cut) <> PFallback ->
   r_ad r = false.
 Proof.
   unfold serve. destruct (gate v (compile cf) q) as [| |v4|].
@@ -359,8 +388,8 @@ Proof.
       - destruct (fx_fallback_ad v).
         + intros H. injection H as <-. reflexivity.
         + intros _ _ [F|F]; [discriminate | congruence]. }
-    assert (forall m' same, x_reply (synthesise v (compile cf) m' same al) = Some r -> r_same r = false ->
-              fx_fallback_ad v = true \/ x_path (synthesise v (compile cf) m' same al) <> PFallback -> r_ad r = false) as SY.
+    assert (forall m' same, x_reply (synthesise v (compile cf) m' same al cut) = Some r -> r_same r = false ->
+              fx_fallback_ad v = true \/ x_path (synthesise v (compile cf) m' same al cut) <> PFallback -> r_ad r = false) as SY.
     { intros m' same. unfold synthesise. destruct al as [|k| |ar].
       - apply FB.
       - destruct ((k =? 0) || (k =? 1)); [|apply FB]. cbn [x_reply]. intros H. injection H as <-. reflexivity.
@@ -386,7 +415,7 @@ Definition ad_witness_down : msg :=
   mk_msg false 1 0 true (Some []) [RAAAA (bs "h.ex.t.") 60 (v4in6_prefix ++ [1; 2; 3; 4])] [].
 Definition ad_witness_a : msg := mk_msg false 1 0 false None [RA (bs "h.ex.t.") 300 [10; 0; 0; 1]] [].
 Lemma never_ad_witness :
-  let x := serve old ad_witness_cf ad_witness_q (Some (ad_witness_down, 0)) false (QResp ad_witness_a) in
+  let x := serve old ad_witness_cf ad_witness_q (Some (ad_witness_down, 0)) false (QResp ad_witness_a) None in
   x_path x = PFallback /\ x_reply x = Some (mk_reply false 0 true [] []).
 Proof. split; reflexivity. Qed.
 
@@ -394,43 +423,46 @@ Proof. split; reflexivity. Qed.
 Definition soa_positive (m : msg) : Prop :=
   match first_soa (m_ns m) with Some (t, mn) => 0 < t /\ 0 < mn | None => True end.
 
-Lemma owner_and_ttl_with v cf q m mark work ar r o t e :
+Lemma owner_and_ttl_with v cf q m mark work ar cut r o t e :
   ttl_ceiling v (m_ns m) = spec_negative_ttl m ->
-  x_path (serve v cf q (Some (m, mark)) work (QResp ar)) = PSynth ->
-  x_reply (serve v cf q (Some (m, mark)) work (QResp ar)) = Some r ->
+  x_path (serve v cf q (Some (m, mark)) work (QResp ar) cut) = PSynth ->
+  x_reply (serve v cf q (Some (m, mark)) work (QResp ar) cut) = Some r ->
   In (RAAAA o t e) (r_answer r) ->
   (exists ta ip, In (RA o ta ip) (m_answer ar))
   /\ (forall o' ta ip, In (RA o' ta ip) (m_answer ar) -> t <= ta)
-  /\ t <= spec_negative_ttl m.
+  /\ t <= spec_negative_ttl m
+  /\ (forall s, cut = Some s -> t <= s).
 Proof.
-  intros HC HP HR HI. destruct (synthesised_aaaa_sound _ _ _ _ _ _ _ _ _ _ _ HP HR HI) as ((p & ta & ip & v4 & _ & Ha & _) & B & C).
-  split; [eauto|]. split; [exact B|]. rewrite <- HC. exact C.
+  intros HC HP HR HI. destruct (synthesised_aaaa_sound _ _ _ _ _ _ _ _ _ _ _ _ HP HR HI) as ((p & ta & ip & v4 & _ & Ha & _) & B & C & D).
+  split; [eauto|]. split; [exact B|]. split; [rewrite <- HC; exact C | exact D].
 Qed.
-Lemma owner_and_ttl_fixed_lem v cf q m mark work ar r o t e :
+Lemma owner_and_ttl_fixed_lem v cf q m mark work ar cut r o t e :
   fx_negttl v = true ->
-  x_path (serve v cf q (Some (m, mark)) work (QResp ar)) = PSynth ->
-  x_reply (serve v cf q (Some (m, mark)) work (QResp ar)) = Some r ->
+  x_path (serve v cf q (Some (m, mark)) work (QResp ar) cut) = PSynth ->
+  x_reply (serve v cf q (Some (m, mark)) work (QResp ar) cut) = Some r ->
   In (RAAAA o t e) (r_answer r) ->
   (exists ta ip, In (RA o ta ip) (m_answer ar))
   /\ (forall o' ta ip, In (RA o' ta ip) (m_answer ar) -> t <= ta)
-  /\ t <= spec_negative_ttl m.
+  /\ t <= spec_negative_ttl m
+  /\ (forall s, cut = Some s -> t <= s).
 Proof. intros F. apply owner_and_ttl_with. apply (ttl_ceiling_fixed v (m_ns m) F). Qed.
-Lemma owner_and_ttl_partial_lem cf q m mark work ar r o t e :
+Lemma owner_and_ttl_partial_lem cf q m mark work ar cut r o t e :
   soa_positive m ->
-  x_path (serve old cf q (Some (m, mark)) work (QResp ar)) = PSynth ->
-  x_reply (serve old cf q (Some (m, mark)) work (QResp ar)) = Some r ->
+  x_path (serve old cf q (Some (m, mark)) work (QResp ar) cut) = PSynth ->
+  x_reply (serve old cf q (Some (m, mark)) work (QResp ar) cut) = Some r ->
   In (RAAAA o t e) (r_answer r) ->
   (exists ta ip, In (RA o ta ip) (m_answer ar))
   /\ (forall o' ta ip, In (RA o' ta ip) (m_answer ar) -> t <= ta)
-  /\ t <= spec_negative_ttl m.
+  /\ t <= spec_negative_ttl m
+  /\ (forall s, cut = Some s -> t <= s).
 Proof. intros F. apply owner_and_ttl_with. apply (ttl_ceiling_old_positive (m_ns m) F). Qed.
 
 Definition ttl_witness_down : msg := mk_msg false 1 0 true (Some []) [] [Some (3600, 0)].
 Definition ttl_witness_a : msg := mk_msg false 1 0 false None [RA (bs "h.ex.t.") 300 [192; 0; 9; 1]; RA (bs "h.ex.t.") 300 [10; 0; 0; 1]] [].
 Lemma owner_and_ttl_refuted_lem :
   exists cf q m mark work ar r o t e,
-    x_path (serve old cf q (Some (m, mark)) work (QResp ar)) = PSynth
-    /\ x_reply (serve old cf q (Some (m, mark)) work (QResp ar)) = Some r
+    x_path (serve old cf q (Some (m, mark)) work (QResp ar) None) = PSynth
+    /\ x_reply (serve old cf q (Some (m, mark)) work (QResp ar) None) = Some r
     /\ In (RAAAA o t e) (r_answer r)
     /\ spec_negative_ttl m < t.
 Proof.
@@ -440,47 +472,48 @@ Proof.
 Qed.
 
 (* the owner is the end of the alias chain whenever the A records are *)
-Lemma owner_follows_chain_lem v cf q m mark work ar r o t e :
+Lemma owner_follows_chain_lem v cf q m mark work ar cut r o t e :
   (forall o' ta ip, In (RA o' ta ip) (m_answer ar) -> o' = chain_terminal 16 (q_name q) (m_answer ar)) ->
-  x_path (serve v cf q (Some (m, mark)) work (QResp ar)) = PSynth ->
-  x_reply (serve v cf q (Some (m, mark)) work (QResp ar)) = Some r ->
+  x_path (serve v cf q (Some (m, mark)) work (QResp ar) cut) = PSynth ->
+  x_reply (serve v cf q (Some (m, mark)) work (QResp ar) cut) = Some r ->
   In (RAAAA o t e) (r_answer r) ->
   o = chain_terminal 16 (q_name q) (m_answer ar).
 Proof.
-  intros HW HP HR HI. destruct (synthesised_aaaa_sound _ _ _ _ _ _ _ _ _ _ _ HP HR HI) as ((p & ta & ip & v4 & _ & Ha & _) & _).
+  intros HW HP HR HI. destruct (synthesised_aaaa_sound _ _ _ _ _ _ _ _ _ _ _ _ HP HR HI) as ((p & ta & ip & v4 & _ & Ha & _) & _).
   eapply HW. exact Ha.
 Qed.
 
 Lemma never_ad_refuted_lem :
   exists cf q down work al r,
-    x_reply (serve old cf q down work al) = Some r /\ r_same r = false /\ r_ad r = true.
+    x_reply (serve old cf q down work al None) = Some r /\ r_same r = false /\ r_ad r = true.
 Proof.
   exists ad_witness_cf, ad_witness_q, (Some (ad_witness_down, 0)), false, (QResp ad_witness_a). eexists.
   split; [reflexivity|]. split; reflexivity.
 Qed.
 
-Lemma never_ad_partial_lem cf q down work al r :
-  x_reply (serve old cf q down work al) = Some r -> r_same r = false ->
-  x_path (serve old cf q down work al) <> PFallback ->
+Lemma never_ad_partial_lem cf q down work al cut r :
+  x_reply (serve old cf q down work al cut) = Some r -> r_same r = false ->
+  x_path (serve old cf q down work al cut) <> PFallback ->
   r_ad r = false.
-Proof. intros H1 H2 H3. exact (never_ad_gen old cf q down work al r H1 H2 (or_intror H3)). Qed.
-Lemma never_ad_fixed_lem v cf q down work al r :
+Proof. intros H1 H2 H3. exact (never_ad_gen old cf q down work al cut r H1 H2 (or_intror H3)). Qed.
+Lemma never_ad_fixed_lem v cf q down work al cut r :
   fx_fallback_ad v = true ->
-  x_reply (serve v cf q down work al) = Some r -> r_same r = false -> r_ad r = false.
-Proof. intros F H1 H2. exact (never_ad_gen v cf q down work al r H1 H2 (or_introl F)). Qed.
+  x_reply (serve v cf q down work al cut) = Some r -> r_same r = false -> r_ad r = false.
+Proof. intros F H1 H2. exact (never_ad_gen v cf q down work al cut r H1 H2 (or_introl F)). Qed.
 
 (* ---------------- the tree as it is ---------------- *)
-Lemma owner_and_ttl_now cf q m mark work ar r o t e :
-  x_path (serve cur cf q (Some (m, mark)) work (QResp ar)) = PSynth ->
-  x_reply (serve cur cf q (Some (m, mark)) work (QResp ar)) = Some r ->
+Lemma owner_and_ttl_now cf q m mark work ar cut r o t e :
+  x_path (serve cur cf q (Some (m, mark)) work (QResp ar) cut) = PSynth ->
+  x_reply (serve cur cf q (Some (m, mark)) work (QResp ar) cut) = Some r ->
   In (RAAAA o t e) (r_answer r) ->
   (exists ta ip, In (RA o ta ip) (m_answer ar))
   /\ (forall o' ta ip, In (RA o' ta ip) (m_answer ar) -> t <= ta)
-  /\ t <= spec_negative_ttl m.
+  /\ t <= spec_negative_ttl m
+  /\ (forall s, cut = Some s -> t <= s).
 Proof. apply owner_and_ttl_fixed_lem. reflexivity. Qed.
 
-Lemma never_ad_now cf q down work al r :
-  x_reply (serve cur cf q down work al) = Some r -> r_same r = false -> r_ad r = false.
+Lemma never_ad_now cf q down work al cut r :
+  x_reply (serve cur cf q down work al cut) = Some r -> r_same r = false -> r_ad r = false.
 Proof. apply never_ad_fixed_lem. reflexivity. Qed.
 
 (* ---------------- alias chains of any length ---------------- *)
@@ -520,9 +553,9 @@ Qed.
 (* the synthesised reply carries the alias chain of the A response — whatever
    its length — from the queried name to its end, and every synthesised AAAA
    sits at that end *)
-Lemma owner_after_alias_chain_lem v cf q m mark work ar r t :
-  x_path (serve v cf q (Some (m, mark)) work (QResp ar)) = PSynth ->
-  x_reply (serve v cf q (Some (m, mark)) work (QResp ar)) = Some r ->
+Lemma owner_after_alias_chain_lem v cf q m mark work ar cut r t :
+  x_path (serve v cf q (Some (m, mark)) work (QResp ar) cut) = PSynth ->
+  x_reply (serve v cf q (Some (m, mark)) work (QResp ar) cut) = Some r ->
   alias_chain (q_name q) (filter is_chain (m_answer ar)) t ->
   (forall o ta ip, In (RA o ta ip) (m_answer ar) -> o = t) ->
   alias_chain (q_name q) (filter is_chain (r_answer r)) t
@@ -530,7 +563,7 @@ Lemma owner_after_alias_chain_lem v cf q m mark work ar r t :
   /\ (exists ttl e, In (RAAAA t ttl e) (r_answer r)).
 Proof.
   intros HP HR HC HA.
-  destruct (synth_reply_shape _ _ _ _ _ _ HP) as (m' & mark' & ar' & Ed & Ea & R & NE).
+  destruct (synth_reply_shape _ _ _ _ _ _ _ HP) as (m' & mark' & ar' & Ed & Ea & R & NE).
   injection Ed as <- <-. injection Ea as <-. cbv zeta in R, NE. rewrite R in HR. injection HR as <-. cbn [r_answer].
   split; [|split].
   - rewrite filter_app, filter_chain_cap, filter_chain_synth, app_nil_r. apply alias_chain_cap. exact HC.
@@ -538,16 +571,51 @@ Proof.
     apply synth_rrs_in in HI as (p & o' & ta & ip & v4 & _ & Ha & _ & _ & E). injection E as -> _ _.
     apply filter_In in Ha as (Ha & _). eapply HA. exact Ha.
   - destruct (synth_rrs (compile cf) _ _) as [|x l] eqn:ES; [congruence|].
-    assert (In x (synth_rrs (compile cf) (synth_ttl v (m_ns m) (filter is_a (m_answer ar))) (filter is_a (m_answer ar)))) as Hx
+    assert (In x (synth_rrs (compile cf) (synth_ttl v (m_ns m) (filter is_a (m_answer ar)) cut) (filter is_a (m_answer ar)))) as Hx
       by (rewrite ES; left; reflexivity).
     apply synth_rrs_in in Hx as (p & o' & ta & ip & v4 & _ & Ha & _ & _ & ->).
     apply filter_In in Ha as (Ha & _). rewrite (HA _ _ _ Ha).
     eexists _, _. apply in_app_iff. right. left. reflexivity.
 Qed.
 
+(* ---------------- the request tree's bound (af44539) ---------------- *)
+Lemma cap_ttl_le ttl r : is_chain r = true -> rr_ttl (cap_ttl ttl r) <= ttl.
+Proof.
+  destruct r as [| |o t x|o t x| |]; cbn; try discriminate; intros _;
+    (destruct (ttl <? t) eqn:E; [lia | apply N.ltb_ge in E; lia]).
+Qed.
+(* no record of a synthesised answer section — alias chain included — outlives
+   the request tree: every TTL is at most the whole seconds left of its bound *)
+Lemma synth_reply_within_bound_lem v cf q m mark work ar s r x :
+  x_path (serve v cf q (Some (m, mark)) work (QResp ar) (Some s)) = PSynth ->
+  x_reply (serve v cf q (Some (m, mark)) work (QResp ar) (Some s)) = Some r ->
+  In x (r_answer r) -> rr_ttl x <= s.
+Proof.
+  intros HP HR HI.
+  destruct (synth_reply_shape _ _ _ _ _ _ _ HP) as (m' & mark' & ar' & Ed & Ea & R & _).
+  injection Ed as <- <-. injection Ea as <-. cbv zeta in R. rewrite R in HR. injection HR as <-. cbn [r_answer] in HI.
+  pose proof (synth_ttl_le_cut v (m_ns m) (filter is_a (m_answer ar)) s) as L.
+  apply in_app_iff in HI as [HI|HI].
+  - apply in_map_iff in HI as (y & <- & Hy). apply filter_In in Hy as (_ & Hc).
+    eapply N.le_trans; [apply cap_ttl_le; exact Hc | exact L].
+  - apply synth_rrs_in in HI as (p & o & t & ip & v4 & _ & _ & _ & _ & ->). exact L.
+Qed.
+(* an unbounded tree (no ResponseMeta, or no cut folded in) is served exactly
+   as a tree whose bound lies beyond every TTL in play *)
+Lemma far_bound_is_no_bound v ns addrs s :
+  ttl_ceiling v ns <= s -> synth_ttl v ns addrs (Some s) = synth_ttl v ns addrs None.
+Proof.
+  intros H. rewrite synth_ttl_is_min. pose proof (synth_ttl_le_ceiling v ns addrs None). lia.
+Qed.
+
+Lemma synth_ttl_min_with_bound_lem v ns addrs s :
+  synth_ttl v ns addrs (Some s) = N.min s (synth_ttl v ns addrs None)
+  /\ (ttl_ceiling v ns <= s -> synth_ttl v ns addrs (Some s) = synth_ttl v ns addrs None).
+Proof. exact (conj (synth_ttl_is_min v ns addrs s) (far_bound_is_no_bound v ns addrs s)). Qed.
+
 (* ---------------- through the production Queryer ---------------- *)
-Lemma wire_synth_needs_answered_sub_query cf q down s :
-  x_path (serve_wire cf q down s) = PSynth ->
+Lemma wire_synth_needs_answered_sub_query cf q down s cut :
+  x_path (serve_wire cf q down s cut) = PSynth ->
   exists m mark, s = SubWrite m mark /\ mark <> 2 /\ mark <> 3 /\ m_rcode m = 0
                  /\ exists o t ip, In (RA o t ip) (m_answer m).
 Proof.
